@@ -13,5 +13,9 @@ def run(c):
     A.validate_assembly_concrete(c)     # a mismatch makes the run inconclusive; the obligations still run, and what they find is reported only after native confirmation
     ct = A.conv_table_for([p for w in A.WRAPPERS_QUICK for p in w])
     A.obl_order(c, ct, thorough=(c.tier == "thorough"), budget_s=1500)
+    # "user entry before bundled entry": the user's list the assembly consults is the file as it can be read now - a file that could not be
+    # read earlier is read again as soon as it can be
+    import obl_phonetic
+    obl_phonetic.obl_userfiles(c, budget_s=600)
     c.outside("that edit_distance is the edit distance; the content of the dictionary; words longer than the bound; "
               "Rank numbers outside the producible domain (the comparator is not a total order there)")
